@@ -30,7 +30,7 @@ META = dict(
          "YAML/JSON, Dataset per-variable attributes) and loaded by the real Config; Config.calls / .contexts / "
          "Call.config() must equal (also for three-context configs whose first and last context share a window, and for "
          "load histories that rewrite the same file path with another config) the call set computed from the abstract config (one call per known (stream, module, "
-         "Scale: a stream with tests of 4-5 top-level modules (known and unknown); histories of 40 and 300 configurations (windows, two region shapes) parsed and dropped one after another in one process, as dict / YAML / JSON. test) with exactly the configured kwargs, window, region). non-trivial = not the plain dict contexts-list spelling",
+         "test) with exactly the configured kwargs, window, region). Scale: a stream with tests of 4-5 top-level modules (known and unknown); histories of 40 and 300 configurations (windows, two region shapes) parsed and dropped one after another in one process, as dict / YAML / JSON. non-trivial = not the plain dict contexts-list spelling",
     bounds={"quick": {"entries_per_stream": 2, "streams": 2, "contexts": 2}, "thorough": {"entries_per_stream": 3, "streams": 2, "contexts": 2}},
     not_judged=["unquoted YAML timestamps (become datetime objects)", "test parameters whose value is itself a mapping (no shipped test has one)"],
     assumptions=["ruamel/json dumps of the harness round-trip (self-checked before use)", "shapely builds the expected region geometry"],
